@@ -109,7 +109,7 @@ def run_unit(spec):
         if arg == "read_exact":
             return [common.summarise(L1.verify_read_exact(reg), [common.function_record(R.read_exact)])]
         if arg == "zigzag":
-            return [common.summarise(r, [common.function_record(R._zigzag_decode)]) for r in L1.verify_zigzag(reg)]
+            return [common.summarise(r, [common.function_record(f) for f in [getattr(R, '_zigzag_decode', None)] if f is not None]) for r in L1.verify_zigzag(reg)]
         if arg == "tz_aware_from_i64":
             out = [common.summarise(L1.verify_tz_aware(reg), [common.function_record(R.tz_aware_from_i64)])]
             if any(_float_reason(u) for u in out):
